@@ -148,7 +148,8 @@ class ScriptedPort(ebbfake.PortExtras):
         self.closed = False
         self.hand = None                  # pending handshake reply
         self.fresh = False                # just opened by connect(): nothing but probes written so far
-        self.close_fault = ""             # "", "serial" or "notopen": what close() raises after closing
+        self.close_fault = ""             # "", "serial" or "notopen": what close() raises after closing; a suffix "+os" makes the injected
+                                          # write/read failures plain OSError (= IOError) instead of pyserial's SerialException
 
     def begin_call(self):
         self.ops = []
@@ -209,7 +210,7 @@ class ScriptedPort(ebbfake.PortExtras):
         if plan.get("w") == "raise":
             self._log_w(raw, True)
             self.cur = None
-            raise self.serial.SerialException("injected write failure")
+            raise self.io_exc("injected write failure")
         self._log_w(raw, False)
         self.cur = {"name": req_name(body), "e": plan.get("e", 0), "o": plan.get("o", "conf"), "r": plan.get("r") or {"vals": [], "s": ""}, "shape": plan.get("shape", ""), "reads": 0,
                     "done": False}
@@ -240,19 +241,24 @@ class ScriptedPort(ebbfake.PortExtras):
         c["done"] = True
         if c["o"] == "raise":
             self._log_r("raise")
-            raise self.serial.SerialException("injected read failure")
+            raise self.io_exc("injected read failure")
         self._log_r(c["o"], c["r"])
         line = render_reply(c["o"], c["name"], c["r"], c.get("shape", ""))
         self.ops[-1]["line"] = line
         return (line + "\r\n").encode("ascii")
 
+    @property
+    def io_exc(self):
+        return OSError if "+os" in self.close_fault else self.serial.SerialException
+
     def close(self):
         self.closed = True
-        if self.close_fault:
+        if self.close_fault.replace("+os", ""):
             CLOSE_RAISED.append(1)
             # the port is gone all the same (cable pulled): close() reports it, the object must still end up not connected
-            exc = self.serial.SerialException if self.close_fault == "serial" else self.serial.serialutil.PortNotOpenError
-            raise exc() if self.close_fault != "serial" else exc("injected close failure")
+            kind = self.close_fault.replace("+os", "")
+            exc = self.serial.SerialException if kind == "serial" else self.serial.serialutil.PortNotOpenError
+            raise exc() if kind != "serial" else exc("injected close failure")
 
 
 def opt(v):
@@ -410,7 +416,7 @@ def judge(ctx, name, events, chunk=400):
 # G: scripts from the model
 # ---------------------------------------------------------------------------
 
-CLOSE_FAULTS = ["", "", "serial", "notopen"]
+CLOSE_FAULTS = ["", "+os", "serial", "notopen", "", "serial+os"]
 CLOSE_RAISED = []                 # one entry per close() that raised (run_call looks at its growth)
 OPENED = []                       # one entry per port the code under test opened through the stubbed serial.Serial
 
@@ -436,7 +442,7 @@ def run_script(hist, dev, board, start_connected, wsoff=0):
             plan["r"] = {"vals": list(r.get("vals", [])), "s": r.get("s", "")}
         return plan
 
-    sess = Session(dev, start_connected, board, supplier, close_fault=CLOSE_FAULTS[wsoff % 4])
+    sess = Session(dev, start_connected, board, supplier, close_fault=CLOSE_FAULTS[wsoff % len(CLOSE_FAULTS)])
     calls, drift = [], []
     try:
         for k, h in enumerate(hist):
